@@ -150,6 +150,16 @@ def scenarios():
                               lambda c: ["tum", ref(c), est(c), "--save_results", "r.zip", "--save_plot", "p.png",
                                          "--serialize_plot", "s.pkl"], plot=True))
     for tool in ("ape", "rpe"):
+        # the plot window requested as well (closed at once under the non-interactive backend);
+        # extensions in capitals: one file per figure for everything that is not exactly ".pdf"
+        S.append(cli_scenario("evo_%s --plot --save_plot PDF" % tool, tool,
+                              lambda c: ["tum", ref(c), est(c), "--plot", "--save_plot", "p.PDF"], plot=True))
+    S.append(cli_scenario("evo_ape --plot --save_plot png --serialize_plot", "ape",
+                          lambda c: ["tum", ref(c), est(c), "--plot", "--save_plot", "p.PNG", "--serialize_plot", "s.pkl"], plot=True))
+    S.append(cli_scenario("evo_traj --plot --save_plot Pdf", "traj",
+                          lambda c: ["tum", est(c), "--ref", ref(c), "--plot", "--save_plot", "p.Pdf"], plot=True))
+    S.append(cli_scenario("evo_res --plot --save_plot PDF", "res", lambda c: c["zips"] + ["--plot", "--save_plot", "p.PDF"], plot=True))
+    for tool in ("ape", "rpe"):
         # one target named for two outputs: the second writer finds a file that the first one has
         # just created - it exists, so it is asked about
         S.append(cli_scenario("evo_%s --serialize_plot X --save_results X" % tool, tool,
